@@ -3,6 +3,7 @@ import GramModel.Lemmas.Print
 import GramModel.Lemmas.PrintDerives
 import GramModel.Lemmas.PrintLex
 import GramModel.Lemmas.ParsePrinted22
+import GramModel.Lemmas.ParseComplete3
 
 /-!
 # C16 — printed terms read back as the same term (the printer side)
@@ -850,3 +851,66 @@ example : ∃ (toks : Array PModel.PTok) (I : List Char → Name) (nm : Name →
           (.app (.var 3 2) (.var 1 1))),
    fun x => by simp, by decide, by decide, by decide, by decide, by decide,
    by simp [Function.comp_def]⟩
+
+
+/-! ## General completeness of the parser model w.r.t. the grammar (C07, the missing direction) — stage 1
+
+(The statements live here and not in Props/C07.lean because the packrat-level lemmas they rest on are in
+Lemmas/ParsePrinted*.lean, which import Props/C07.lean.)  `PModel.SegT toks A a b t` is the tree-carrying derivation relation
+of `grammar.y` (one constructor per production); `PModel.simpleK` are the tokens of the operator sublanguage: leaf tokens,
+parentheses, the nine binary operators (`-` also as negation). -/
+
+/-- **Completeness on the operator sublanguage**: if every token is a leaf, a parenthesis or a binary operator, every
+sentence of `term` of `grammar.y` is accepted by the parse phase, with exactly its parse tree (unique by `C07_unambiguous`),
+every token consumed, no error recorded, confident.  By induction on the length of the segment and up the precedence tower:
+for every tower nonterminal `A`, a *maximal* derivation `SegT toks A a b t` (the token at `b` not in the extension set
+`Unamb.ext A` of `C07_extension_law`) makes `parse_A(tokens, a)` return `t` with `next = b`; at each ordered choice the
+alternatives tried before the right one fail (`PModel.comp_atom` … `PModel.comp_term`). -/
+def C16_parse_complete_operators_stmt : Prop :=
+  ∀ (toks : Array PModel.PTok) (t : PModel.Src),
+    (∀ i k, PModel.KAt toks i k → PModel.simpleK k = true) → PModel.SegT toks .term 0 toks.size t →
+    ∃ r st, PModel.runParser toks = some (r, st) ∧ r.term = t ∧ r.next = toks.size ∧
+      PModel.collectErrors r.term = [] ∧ r.confident = true
+theorem C16_parse_complete_operators : C16_parse_complete_operators_stmt :=
+  fun _ _ hS h => PModel.parse_complete_simple hS h
+
+/-- non-vacuity: the one-token program `x` -/
+example : ∃ (toks : Array PModel.PTok) (t : PModel.Src),
+    (∀ i k, PModel.KAt toks i k → PModel.simpleK k = true) ∧ PModel.SegT toks .term 0 toks.size t :=
+  ⟨#[⟨.identifier 1, ⟨0, 1⟩⟩], _,
+   by
+     intro i k ⟨hlt, hk⟩
+     have : i = 0 := by simp at hlt; omega
+     subst this
+     simp at hk; subst hk; rfl,
+   .unit (B := .jumboTerm) (by decide) (.unit (B := .giantTerm) (by decide) (.unit (B := .hugeTerm) (by decide)
+     (.unit (B := .largeTerm) (by decide) (.unit (B := .mediumTerm) (by decide) (.unit (B := .smallTerm) (by decide)
+       (.unit (B := .atom) (by decide) (.unit (B := .variable) (by decide)
+         (.var (x := 1) ⟨by decide, rfl⟩))))))))⟩
+
+/-- **Accepted iff sentence** (operator sublanguage): the parse phase consumes every token without recording an error
+exactly when the token sequence is a sentence of `term`. -/
+def C16_accepted_iff_sentence_operators_stmt : Prop :=
+  ∀ (toks : Array PModel.PTok), (∀ i k, PModel.KAt toks i k → PModel.simpleK k = true) →
+    ((∃ r st, PModel.runParser toks = some (r, st) ∧ r.next = toks.size ∧ PModel.collectErrors r.term = []) ↔
+      ∃ t, PModel.SegT toks .term 0 toks.size t)
+theorem C16_accepted_iff_sentence_operators : C16_accepted_iff_sentence_operators_stmt := by
+  intro toks hS
+  constructor
+  · rintro ⟨r, st, hr, hn, hce⟩
+    have := PModel.runParser_spans hr hce
+    rw [hn] at this
+    exact ⟨_, this⟩
+  · rintro ⟨t, h⟩
+    obtain ⟨r, st, hr, _, hn, hce, _⟩ := PModel.parse_complete_simple hS h
+    exact ⟨r, st, hr, hn, hce⟩
+
+/-- General completeness, full statement (PENDING: proved for the operator sublanguage, `C16_parse_complete_operators`;
+stages 2 and 3 — binders, arrows, conditionals, definitions — need, at the `jumbo_term` and `term` choices, that the
+alternatives before the right one fail on a sentence although `parse_let`/`parse_if`/`parse_group` recover instead of failing
+once committed; the grammar-level facts for that are in Lemmas/Unambiguous.lean: `conflict_paren`, `jumbo_ident_next`,
+`small_ident_next`, `open_open`, `giant_open`). -/
+def C16_parse_complete_stmt : Prop :=
+  ∀ (toks : Array PModel.PTok) (t : PModel.Src), PModel.SegT toks .term 0 toks.size t →
+    ∃ r st, PModel.runParser toks = some (r, st) ∧ r.term = t ∧ r.next = toks.size ∧
+      PModel.collectErrors r.term = [] ∧ r.confident = true
